@@ -142,6 +142,9 @@ impl<'a> BlockFilterHashesProcess<'a> {
                     return StatusCode::Ignore.with_context(errmsg);
                 }
             };
+            if block_filter_hashes.is_empty() {
+                return StatusCode::BlockFilterHashesIsEmpty.into();
+            }
             let end_number = start_number + block_filter_hashes.len() as BlockNumber - 1;
             if end_number > next_cached_check_point_number {
                 let diff = end_number - next_cached_check_point_number;
@@ -174,12 +177,14 @@ impl<'a> BlockFilterHashesProcess<'a> {
             // Update cached block filter hashes.
             let start_index = cached_hashes[index_offset..].len();
             let mut new_cached_hashes = cached_hashes;
-            if end_number > next_cached_check_point_number {
+            let new_size = if end_number > next_cached_check_point_number {
                 let excess_size = (end_number - next_cached_check_point_number) as usize;
-                let new_size = block_filter_hashes.len() - excess_size;
-                new_cached_hashes.extend_from_slice(&block_filter_hashes[start_index..new_size]);
+                block_filter_hashes.len() - excess_size
             } else {
-                new_cached_hashes.extend_from_slice(&block_filter_hashes[start_index..]);
+                block_filter_hashes.len()
+            };
+            if start_index < new_size {
+                new_cached_hashes.extend_from_slice(&block_filter_hashes[start_index..new_size]);
             }
             self.protocol
                 .peers
